@@ -3,7 +3,7 @@ import ast
 
 from ..core import AnalysisError, dotted, callname, last, const, short, norm
 from ..cfg import CFG
-from ..util import body_nodes, name_defs, enclosing_ifs, enclosing_stmt, dict_literal_value
+from ..util import body_nodes, name_defs, enclosing_ifs, enclosing_stmt, dict_literal_value, dict_keys
 
 EXPLANATION = (
     "Static analysis of the current /repo source (the two fan-out delegates, the join, check_pending_results). Decides: (R1) results are "
@@ -213,7 +213,9 @@ def r3(chk, ctx, p, se):
             ok = len(calls) >= 1 and all(norm(c.args[0]) == "context" for c in calls)
         else:
             sd = [x for x in name_defs(f, "start") if isinstance(x, ast.Assign)]
-            ok = len(sd) == 1 and norm(sd[0].value) == "get_start_index(context)"
+            # the join reads the Range of its own iteration record (entering=False); a Map being entered reads only a re-entry record
+            want = "get_start_index(context, entering=False)" if f is j else "get_start_index(context)"
+            ok = len(sd) == 1 and norm(sd[0].value) == want
         chk.ob("C05.R3", "%s reads the batch start from the event's context itself" % f.name, ok, "",
                key="%s | batch start is not re-read by get_start_index(context) in this function" % f.qname, where=f.where(),
                message="the join recurses into the enclosing fan-out after popping the Branch stack within one notify call: a start index captured earlier belongs to the nested state")
@@ -225,8 +227,19 @@ def r3(chk, ctx, p, se):
     if gs is None:
         raise AnalysisError("anchor not found: get_start_index")
     txt = [norm(s) for s in ast.walk(gs.node) if isinstance(s, ast.stmt)]
-    ok = "iterator_range = context_state['Branch'][-1].get('Range', '0:0')" in txt and "start = int(iterator_range.split(':')[0])" in txt and "start = 0" in txt
-    chk.ob("C05.R3", "Range reader: int(range.split(':')[0]), default 0", ok, "", key="%s | Range reader" % gs.qname, where=gs.where(), message="")
+    ok = "iterator_range = branch_info.get('Range', '0:0')" in txt and "branch_info = context_state['Branch'][-1]" in txt and "start = int(iterator_range.split(':')[0])" in txt and "start = 0" in txt
+    chk.ob("C05.R3", "Range reader: int(range.split(':')[0]) of the top Branch record, default 0", ok, "", key="%s | Range reader" % gs.qname, where=gs.where(), message="")
+    # on entry only the record left by the Map's own previous block (ID + Range, no Index) is honoured
+    prm = [a.arg for a in gs.node.args.args]
+    dfl = [norm(d) for d in gs.node.args.defaults]
+    guards = [i for i in ast.walk(gs.node) if isinstance(i, ast.If) and norm(i.test) == "entering and 'Index' in branch_info" and [norm(x) for x in i.body] == ["return 0"]]
+    ok = prm == ["context", "entering"] and dfl == ["True"] and len(guards) == 1
+    chk.ob("C05.R3", "Range reader: on entry a record with an Index (an enclosing fan-out's branch record) is not a start index", ok, "",
+           key="%s | on entering a Map the Range of an enclosing branch record is taken for the Map's own start index" % gs.qname, where=gs.where(),
+           message="a Map nested in an iteration of an outer Map with MaxConcurrency would start at the outer block's start index: its first items are never launched and the execution hangs")
+    rec = [n for n in body_nodes(j) if isinstance(n, ast.Dict) and dict_literal_value(n, "Range") is not None]
+    ok = len(rec) == 1 and sorted(dict_keys(rec[0])) == ["ID", "Range"]
+    chk.ob("C05.R3", "the re-entry record has no Index (that is what distinguishes it from a branch record)", ok, "", key="%s | re-entry record keys" % j.qname, where=j.where(), message="")
     # writers
     lp = [n for n in body_nodes(mp) if isinstance(n, ast.For)]
     recs = [n for l in lp for n in ast.walk(l) if isinstance(n, ast.Dict) and dict_literal_value(n, "Range") is not None]
